@@ -50,7 +50,7 @@ VARIANTS = [
          new="        limit_sigma = limit_sigma or self.limit_sigma\n"),
     dict(id="c15-ctor-abs-tau", fire=["C15"], file=BTP, old="        self.tau: float = float(tau)", new="        self.tau: float = abs(float(tau))"),
     dict(id="c15-kernel-reads-tau", fire=["C15"], file=TMF, old="                mu += (sigma**2 / team_i.sigma_squared) * omega",
-         new="                mu += (sigma**2 / team_i.sigma_squared) * omega * (1 + self.tau * 0)"),
+         new="                mu += (sigma**2 / team_i.sigma_squared) * omega * (1 + self.tau * 0.001)"),
     dict(id="c15-tau-truthiness", fire=["C15"], file=BTF, old="        tau = tau if tau is not None else self.tau", new="        tau = tau if tau else self.tau"),
     dict(id="c15-silent-if-none", silent=["C15", "C14", "C13", "C02"], file=PL, old="        tau = tau if tau is not None else self.tau",
          new="        if tau is None:\n            tau = self.tau"),
@@ -90,7 +90,7 @@ VARIANTS = [
     dict(id="c02-conditional-append", fire=["C02"], file=TMF, old="                intermediate_result_per_team.append(modified_player)",
          new="                if sigma > 0.01:\n                    intermediate_result_per_team.append(modified_player)"),
     dict(id="c02-reverse-sort", fire=["C02", "C04"], file=COMMON, old="            zipped_matrix.sort(key=_pick_zeroth_index)", new="            zipped_matrix.sort(key=_pick_zeroth_index, reverse=True)"),
-    dict(id="c02-keyless-sort", fire=["C04"], silent=["C02"], file=COMMON, old="            zipped_matrix.sort(key=_pick_zeroth_index)", new="            zipped_matrix.sort()"),
+    dict(id="c02-keyless-sort", fire=["C04"], file=COMMON, old="            zipped_matrix.sort(key=_pick_zeroth_index)", new="            zipped_matrix.sort()"),
     dict(id="c02-clamp-skips-last-team", fire=["C02", "C06"], file=TMP, old="            for team_index, team in enumerate(processed_result):\n                final_team = []",
          new="            for team_index, team in enumerate(processed_result[:-1]):\n                final_team = []"),
     # ------------------------------------------------------------------ C04
